@@ -119,6 +119,7 @@ func (s *IncSolver) Feasible(pc []*Term, extra *Term) bool {
 			names[t] = nm
 		}
 	}
+	b.WriteString(hextAxioms(order, names))
 	for _, t := range all {
 		fmt.Fprintf(&b, "(assert %s)\n", printTerm(t, names))
 	}
@@ -225,7 +226,7 @@ func obligationChunks(ob *Obligation, prelude string) []*Script {
 		return out
 	}
 	// one path per query while that stays below ~48 queries, larger groups beyond
-	chunkSize := (len(ob.Cases) + 47) / 48
+	chunkSize := (len(ob.Cases) + 2047) / 2048
 	if s := os.Getenv("GOVC_CHUNK"); s != "" {
 		if n, _ := strconv.Atoi(s); n > 0 {
 			chunkSize = n
